@@ -59,6 +59,12 @@ def main():
                             pk2 = open(os.path.join(WT, os.path.dirname(fc), gofiles[0])).read().split("package ", 1)[1].split()[0]
                             if pk.replace("_test", "") == pk2.replace("_test", ""):
                                 break
+            # an explicit "cp <...>/<file> <dir>/" in demo.txt wins
+            import re as _re
+            for m in _re.finditer(r"cp\s+(\S+)\s+(\S+)", open(os.path.join(d, "demo.txt")).read()):
+                if os.path.basename(m.group(1)) == os.path.basename(f) and not m.group(2).startswith("/"):
+                    dst = m.group(2)
+                    dst_rel = os.path.join(dst, os.path.basename(f)) if dst.endswith("/") or os.path.isdir(os.path.join(WT, dst)) else dst
             if "demo_path" in meta:
                 dst_rel = meta["demo_path"]
             if dst_rel is None:
